@@ -121,11 +121,21 @@ def materialise(sc, root):
     sfmt = sc["docs"][0]["fmt"] if sc["docs"] else "md"
     sext = "md" if sfmt == "md" else "t"
     shared_doc = {"fmt": sfmt, "tfm": NONE, "skipdef": NONE, "fault": "no"}
+    # rel: the shared documents live in <cwd>/shared and are named relative to the current directory; like-named decoys
+    # (whose commands log an id no scenario knows) lie where a path wrongly resolved against the document's directory points
+    shared_dir = os.path.join(root, "shared") if sc.get("rel") else docs_dir
+    if sc.get("rel"):
+        os.makedirs(shared_dir, exist_ok=True)
+        os.makedirs(os.path.join(docs_dir, "shared"), exist_ok=True)
+        for nm in ("p1", "a1"):
+            decoy = dict(sc["docs"][0]["tests"][0], id="decoy-" + nm, beh="exit", code=0, exp=NONE, det=False, dur=0)
+            with open(os.path.join(docs_dir, "shared", nm + "." + sext), "wb") as f:
+                f.write(render_doc(shared_doc, [decoy], compat=sc.get("compat", False)))
     if sc["pre"]:
-        with open(os.path.join(docs_dir, "p1." + sext), "wb") as f:
+        with open(os.path.join(shared_dir, "p1." + sext), "wb") as f:
             f.write(render_doc(shared_doc, sc["pre"], compat=sc.get("compat", False)))
     if sc["app"]:
-        with open(os.path.join(docs_dir, "a1." + sext), "wb") as f:
+        with open(os.path.join(shared_dir, "a1." + sext), "wb") as f:
             f.write(render_doc(shared_doc, sc["app"], compat=sc.get("compat", False)))
     paths = []
     for i, doc in enumerate(sc["docs"]):
@@ -168,9 +178,9 @@ def materialise(sc, root):
         argv += ["--shell", os.path.join(root, "no-such-shell")]
     if sc["via"] == "cli":
         if sc["pre"]:
-            argv += ["-P", os.path.join(docs_dir, "p1." + sext)]
+            argv += ["-P", os.path.join("shared", "p1." + sext) if sc.get("rel") else os.path.join(docs_dir, "p1." + sext)]
         if sc["app"]:
-            argv += ["-A", os.path.join(docs_dir, "a1." + sext)]
+            argv += ["-A", os.path.join("shared", "a1." + sext) if sc.get("rel") else os.path.join(docs_dir, "a1." + sext)]
     return argv, paths
 
 
